@@ -293,6 +293,21 @@ def settings(tier):
         for d, where in (("sign", "jvp"), ("factor:0.1", "jvp"), ("sign", "vjp")):
             out.append({"kind": kind, "defect": d, "where": where, "modes": None, "order": 1, "after_vjp_only": True})
         out.append({"kind": kind, "defect": None, "where": None, "modes": None, "order": 2, "after_vjp_only": True})
+    # the SAME function object checked first with weaker explicit options that its defect passes (other mode,
+    # order 1), then with the defaults / the full request: the second verdict must not be the first one's
+    for kind in ("vector", "scalar", "matrix"):
+        for d, where in (("sign", "jvp"), ("factor:0.1", "jvp"), ("sign", "vjp"), ("factor:0.1", "vjp")):
+            out.append({"kind": kind, "defect": d, "where": where, "modes": None, "order": 2, "after_weaker_check": True})
+        for where in ("vjp", "jvp"):
+            out.append({"kind": kind, "defect": "order2_untraceable", "where": where, "modes": None, "order": 2, "after_weaker_check": True})
+        out.append({"kind": kind, "defect": None, "where": None, "modes": None, "order": 2, "after_weaker_check": True})
+    # the older entry point autograd.util.quick_grad_check (reverse mode, order 1), verbose and not
+    for kind in ("vector", "scalar"):
+        for verbose in (True, False):
+            for d in ("sign", "factor:0.1", "factor:0.01", "entry:1.0", None):
+                if d and d.startswith("entry") and kind == "scalar":
+                    continue
+                out.append({"kind": kind, "defect": d, "where": "vjp" if d else None, "modes": ["rev"], "order": 1, "via": "quick_grad_check", "verbose": verbose})
     # combo_check: the defect is active for exactly one (positional candidate, keyword candidate) combination
     for kw in (True, False):
         out.append({"kind": "combo", "defect": None, "where": None, "modes": ["fwd", "rev"], "order": 2, "kw": kw, "trigger": None})
@@ -311,6 +326,12 @@ def run_setting(res, st, n_trials, seed):
     if st.get("after_vjp_only"):
         sig["after_vjp_only"] = True
         name += "|after_vjp_only"
+    if st.get("after_weaker_check"):
+        sig["after_weaker_check"] = True
+        name += "|after_weaker_check"
+    if st.get("via"):
+        sig.update(via=st["via"], verbose=st["verbose"])
+        name += "|%s|verbose=%s" % (st["via"], st["verbose"])
     if st["kind"] == "combo":
         sig.update(kw=st["kw"], trigger=st["trigger"])
         name += "|kw=%s|trigger=%s" % (st["kw"], st["trigger"])
@@ -343,6 +364,23 @@ def run_setting(res, st, n_trials, seed):
                     except Exception:
                         pass
                     check_grads(fun, order=st["order"])(*args)  # default modes
+                elif st.get("after_weaker_check"):
+                    weak_modes = ["rev"] if st["where"] == "jvp" else ["fwd"] if st["where"] == "vjp" else ["rev"]
+                    if st["defect"] == "order2_untraceable":
+                        weak_modes = ["rev"] if st["where"] == "vjp" else ["fwd"]
+                    try:
+                        check_grads(fun, modes=weak_modes, order=1)(*args)
+                    except AssertionError:
+                        # the planted defect is invisible to the weaker request by construction
+                        res["counters"]["weaker_check_rejected"] = res["counters"].get("weaker_check_rejected", 0) + 1
+                    check_grads(fun)(*args)  # defaults: both modes, order 2
+                elif st.get("via") == "quick_grad_check":
+                    import contextlib, io
+
+                    from autograd.util import quick_grad_check
+
+                    with contextlib.redirect_stdout(io.StringIO()):
+                        quick_grad_check(fun, args[0], verbose=st["verbose"])
                 elif st["kind"] == "combo":
                     fun.seen.clear()
                     try:
@@ -424,9 +462,37 @@ def run_builtin_acceptance(res, seed, idx, n, tier):
         res["judged"][sig_key(sig)] = reps
 
 
+def run_empty_container_acceptance(res, seed):
+    """Correct functions whose (differentiated) arguments include containers WITHOUT leaves - an empty tuple /
+    list / dict of extra parameters - are accepted in every mode and order."""
+    import autograd.numpy as anp
+    from autograd.test_util import check_grads
+
+    rng = onp.random.Generator(onp.random.PCG64([seed, 77]))
+    x = rng.uniform(0.3, 1.2, size=3)
+    f = lambda p, x: anp.sum(anp.sin(x) * x) * (1 + len(p))
+    for pname, p in (("tuple", ()), ("list", []), ("dict", {}), ("nested", ((), {"k": []}))):
+        for argn in (0, (0, 1), 1):
+            for modes in (["rev"], ["fwd"], ["fwd", "rev"]):
+                for order in (1, 2):
+                    res["evaluations"] += 1
+                    sig = {"engine": "checker", "kind": "empty_container", "container": pname, "argnum": str(argn), "modes": modes, "order": order}
+                    onp.random.seed(int(rng.integers(0, 2**31)))
+                    try:
+                        with warnings.catch_warnings():
+                            warnings.simplefilter("ignore")
+                            check_grads(f, argn, modes=modes, order=order)(p, x)
+                    except Exception as e:
+                        res["violations"].append({"sig": dict(sig, symptom="checker_false_reject"), "case": {"kind": "empty_container", "seed": seed}, "detail": "check_grads(f, %r, modes=%r, order=%d)(%r, x) raised %s: %s" % (argn, modes, order, p, type(e).__name__, str(e)[:200])})
+                        continue
+                    res["judged"][sig_key(sig)] = 1
+
+
 def run_shard(pid, tier, seed, idx, n):
     common.setup_repo()
     res = _new_result()
+    if idx == 3 % n:
+        run_empty_container_acceptance(res, seed)
     sts = settings(tier)
     res["info"]["settings"] = len(sts)
     n_trials = 400 if tier == "quick" else 2000
@@ -446,6 +512,8 @@ def replay(pid, case):
     res = _new_result()
     if case["kind"] == "setting":
         run_setting(res, case["setting"], case["n"], case["seed"])
+    elif case["kind"] == "empty_container":
+        run_empty_container_acceptance(res, case["seed"])
     else:
         run_builtin_acceptance(res, case["seed"], 0, 1, "quick")
         res["violations"] = [v for v in res["violations"] if v["case"]["fn"] == case["fn"]]
